@@ -11,6 +11,8 @@ import (
 
 // C08 - a rejected Reconfigure leaves the middleware exactly as it was.
 
+var secureLaterCfg = cors.Config{Origins: []string{"https://example.com", "https://*.example.com:8443"}, Methods: []string{"PUT"}, RequestHeaders: []string{"X-Listed-1"}, MaxAgeInSeconds: 44}
+
 type c08Case struct {
 	Prior   *CfgSpec `json:"prior"` // nil = passthrough
 	Debug   bool     `json:"debug"`
@@ -100,6 +102,17 @@ func c08Run(r *Run, l *Local, cs c08Case) {
 	if cs.Prior == nil && cfgAfter != nil {
 		fail("config-changed", "passthrough middleware reports a configuration after a rejected Reconfigure")
 	}
+	// nothing is left behind: a later successful Reconfigure gives exactly what a fresh middleware gives
+	if cs.Prior == nil {
+		later := secureLaterCfg
+		if err := m.Reconfigure(&later); err != nil {
+			fail("later-reconfigure-error", fmt.Sprintf("a valid Reconfigure after the rejected one fails: %v", err))
+		} else if fresh, ferr := cors.NewMiddleware(secureLaterCfg); ferr == nil {
+			if d := firstDiff(runSuiteAsIs(fresh, suite), runSuiteAsIs(m, suite)); d >= 0 {
+				fail("rejected-call-left-something-behind", fmt.Sprintf("after the rejected Reconfigure and a later valid one the answer to %s differs from a fresh middleware's", reqString(suite[d])))
+			}
+		}
+	}
 	// debug mode survives later successful operations as it was (a hidden change would surface here)
 	if cs.Prior != nil {
 		if err := m.Reconfigure(cfgAfter); err != nil {
@@ -127,7 +140,7 @@ func TestVerif_C08(t *testing.T) {
 	}
 	prod, _ := c02Product()
 	nb := pick(r, 64, 1024)
-	per := pick(r, 40, 260)
+	per := pick(r, 120, 400)
 	r.Parallel(nb, func(l *Local) {
 		rng := l.Rng
 		for i := 0; i < per; i++ {
